@@ -143,7 +143,7 @@ class MPU(mpu6502.MPU):
     def inst_0x3a(self):
         self.opDECR(None)
 
-    @instruction(name="BIT", mode="abx", cycles=4)
+    @instruction(name="BIT", mode="abx", cycles=4, extracycles=1)
     def inst_0x3c(self):
         self.opBIT(self.AbsoluteXAddr)
         self.pc += 2
